@@ -83,12 +83,14 @@ func jsonOf(v any) string { b, _ := json.Marshal(v); return string(b) }
 var allTerms = []string{"\n", "\n", "\n", "\r\n", "\r", "\u2028", "\u2029"}
 
 func layoutFor(r *rand.Rand, i int) Layout {
-	switch i % 4 {
-	case 0:
+	switch i % 8 {
+	case 0, 1, 2:
 		return Layout{Rand: r, Terms: []string{"\n"}} // ASCII, LF only: positions as every implementation counts them
-	case 1:
+	case 3:
+		return Layout{Rand: r, Terms: []string{"\n", "\r\n"}}
+	case 4:
 		return Layout{Rand: r, Terms: []string{"\n"}, NonASCII: true}
-	case 2:
+	case 5:
 		return Layout{Rand: r, Terms: allTerms}
 	default:
 		return Layout{Rand: r, Terms: allTerms, NonASCII: true}
